@@ -12,6 +12,7 @@ oracle:  written from the property text: per-stream normal form of the events
          same stream bytes; what send_headers/send_data submitted must come out.
 """
 import itertools
+import json
 
 from harness import core, rng, tree
 from harness import h3gen as g
@@ -255,6 +256,204 @@ def roundtrip_case(r, H3Impl, quirks, thorough):
     return new_line, order, expected, late_encoder, pre
 
 
+# --------------------------------------------------- identifier / length boundaries
+BOUNDARY_IDS = [0, 1, 62, 63, 64, 65, 16382, 16383, 16384, 16385, (1 << 30) - 1, 1 << 30, (1 << 30) + 1]
+BOUNDARY_LENS = [0, 1, 62, 63, 64, 65, 16382, 16383, 16384, 16385]
+
+
+def _sender(is_client, peer_control=b""):
+    """a real sending H3Connection that has seen the peer's SETTINGS (+ extra control frames)"""
+    from aioquic.h3.connection import H3Connection
+    from aioquic.quic.events import StreamDataReceived
+    from harness.impl_h3parser import FakeQuic
+    sq = FakeQuic(is_client=is_client)
+    sender = H3Connection(sq, enable_webtransport=True)
+    tmpq = FakeQuic(is_client=not is_client)
+    H3Connection(tmpq)
+    for sid, d, fin in tmpq.sent:
+        sender.handle_event(StreamDataReceived(stream_id=sid, data=d, end_stream=fin))
+    if peer_control:
+        sender.handle_event(StreamDataReceived(stream_id=3 if is_client else 2, data=peer_control, end_stream=False))
+    assert sq.closed is None, sq.closed
+    return sq, sender     # sq.sent keeps the sender's own control / QPACK stream preambles
+
+
+def _padded_headers(base, target_block_len):
+    """header list whose QPACK block is exactly `target_block_len` bytes long (or None)"""
+    import pylsqpack
+    big = [(b"x-pad-%d" % i, bytes([0x80 + i]) * 4000) for i in range(target_block_len // 4100)]
+
+    def blk_len(n):
+        try:
+            return len(pylsqpack.Encoder().encode(0, base + big + [(b"x-fill", b"\xfe" * n)])[1])
+        except (RuntimeError, ValueError):     # pylsqpack's encoder buffers hold < 4096 bytes
+            return 1 << 40
+    if blk_len(0) > target_block_len:
+        return None
+    for n in range(0, 4050):
+        L = blk_len(n)
+        if L == target_block_len:
+            return base + big + [(b"x-fill", b"\xfe" * n)]
+        if L > target_block_len:
+            return None
+    return None
+
+
+def boundary_cases(r):
+    """(name, receiver_role, sent list [(sid|'dgram', bytes, fin)], expected per stream) for every
+    identifier / length the sending API writes as a varint"""
+    REQ = [(b":method", b"GET"), (b":scheme", b"https"), (b":authority", b"example.org"), (b":path", b"/")]
+    RESP = [(b":status", b"200")]
+    # WebTransport streams: session ids, unidirectional and bidirectional
+    for sess in BOUNDARY_IDS + [(1 << 62) - 1]:
+        for uni in (True, False):
+            for is_client in (True, False):
+                sq, sender = _sender(is_client)
+                sid = sender.create_webtransport_stream(sess, is_unidirectional=uni)
+                payload = bytes((sess + i) % 251 for i in range(r.choice([1, 5, 64, 300])))
+                sq.send_stream_data(sid, payload, True)
+                yield (f"wt-{'uni' if uni else 'bidi'}-session-{sess}", 0 if is_client else 1, list(sq.sent),
+                       {sid: {"wt": payload, "sess": sess, "ended": True}})
+    # datagrams: quarter stream ids
+    for qid in BOUNDARY_IDS:
+        sq, sender = _sender(True)
+        payload = bytes((qid + i) % 253 for i in range(r.choice([0, 1, 40])))
+        sender.send_datagram(qid * 4, payload)
+        yield (f"datagram-quarter-{qid}", 0, list(sq.sent), {qid * 4: {"dgram": [payload]}})
+    # push ids (server sends, client receives); MAX_PUSH_ID raised by the client
+    for pid in BOUNDARY_IDS:
+        sq, sender = _sender(False, peer_control=g.frame(0xD, g.varint(pid + 10)))
+        sender._next_push_id = pid                # the ids below were used by earlier pushes
+        psid = sender.send_push_promise(0, REQ)
+        sender.send_headers(psid, RESP)
+        body = b"pushed-%d" % pid
+        sender.send_data(psid, body, True)
+        sender.send_headers(0, RESP, end_stream=True)
+        yield (f"push-id-{pid}", 1, list(sq.sent),
+               {0: {"push": [(pid, REQ)], "headers": [RESP], "ended": True},
+                psid: {"headers": [RESP], "body": body, "push_id": pid, "ended": True}})
+    # 66 pushes one after the other through the API only (push ids 0..65)
+    sq, sender = _sender(False, peer_control=g.frame(0xD, g.varint(100)))
+    psids = [sender.send_push_promise(0, REQ) for _ in range(66)]
+    sender.send_headers(0, RESP, end_stream=True)
+    exp = {0: {"push": [(i, REQ) for i in range(66)], "headers": [RESP], "ended": True}}
+    for i in (63, 64, 65):
+        sender.send_headers(psids[i], RESP, end_stream=True)
+        exp[psids[i]] = {"headers": [RESP], "push_id": i, "ended": True}
+    yield ("push-ids-0..65", 1, list(sq.sent), exp)
+    # DATA frame lengths
+    for n in BOUNDARY_LENS:
+        for is_client in (True, False):
+            sq, sender = _sender(is_client)
+            sid = 0
+            body = bytes((n + i) % 256 for i in range(n))
+            hs = REQ if is_client else RESP
+            sender.send_headers(sid, hs)
+            sender.send_data(sid, body, False)
+            sender.send_data(sid, b"tail", True)
+            yield (f"data-length-{n}", 0 if is_client else 1, list(sq.sent),
+                   {sid: {"headers": [hs], "body": body + b"tail", "ended": True}})
+    # header block lengths
+    # (blocks of 16383/16384 bytes are not reachable: pylsqpack's encoder output buffer is 4096 bytes)
+    for n in (62, 63, 64, 65, 4000, 16383, 16384):
+        for is_client in (True, False):
+            hs = _padded_headers(REQ if is_client else RESP, n)
+            if hs is None:
+                continue
+            sq, sender = _sender(is_client)
+            sender.send_headers(0, hs)
+            sender.send_data(0, b"x", True)
+            blk = [d for s_, d, f in sq.sent if s_ == 0][0]
+            yield (f"header-block-length-{n}", 0 if is_client else 1, list(sq.sent),
+                   {0: {"headers": [hs], "body": b"x", "ended": True}})
+
+
+def boundary_deliveries(r, sent, mode):
+    """per-stream bytes in sending order, chunked; datagrams as they are"""
+    streams, order_sids = {}, []
+    out = []
+    for sid, d, fin in sent:
+        if sid == "dgram":
+            out.append(("dgram", d, False))
+            continue
+        if sid not in streams:
+            streams[sid] = [b"", False]
+            order_sids.append(sid)
+        streams[sid][0] += d
+        streams[sid][1] = streams[sid][1] or fin
+    for sid in order_sids:
+        b, fin = streams[sid]
+        if mode == "whole":
+            parts = [b]
+        elif mode == "bytes":
+            parts = [b[i:i + 1] for i in range(min(len(b), 12))] + ([b[12:]] if len(b) > 12 else [])
+        else:
+            parts = g.random_split(r, b, max_parts=r.choice([2, 3, 5]), allow_empty=False)
+        out += [(sid, c, fin and i == len(parts) - 1) for i, c in enumerate(parts)]
+    return out
+
+
+def ser_expected(expected):
+    """JSON form of what was submitted through the sending API (per stream)"""
+    def hl(h):
+        return [[a.hex(), b.hex()] for a, b in h]
+    out = {}
+    for sid, e in expected.items():
+        d = {}
+        for k, v in e.items():
+            if k == "headers":
+                d[k] = [hl(h) for h in v]
+            elif k == "push":
+                d[k] = [[p, hl(h)] for p, h in v]
+            elif k == "dgram":
+                d[k] = [x.hex() for x in v]
+            elif isinstance(v, (bytes, bytearray)):
+                d[k] = bytes(v).hex()
+            else:
+                d[k] = v
+        out[str(sid)] = d
+    return out
+
+
+def deser_expected(ser):
+    def hl(h):
+        return [(bytes.fromhex(a), bytes.fromhex(b)) for a, b in h]
+    out = {}
+    for sid, e in ser.items():
+        d = {}
+        for k, v in e.items():
+            if k == "headers":
+                d[k] = [hl(h) for h in v]
+            elif k == "push":
+                d[k] = [(p, hl(h)) for p, h in v]
+            elif k == "dgram":
+                d[k] = [bytes.fromhex(x) for x in v]
+            elif k in ("body", "wt"):
+                d[k] = bytes.fromhex(v)
+            else:
+                d[k] = v
+        out[int(sid)] = d
+    return out
+
+
+def check_expected(got, expected):
+    for sid, exp in expected.items():
+        n = got.get(sid)
+        if n is None:
+            return f"stream {sid}: nothing received (submitted {sorted(exp)})"
+        for key, want in exp.items():
+            have = n.get(key)
+            if key == "headers":
+                want = [list(h) for h in want]
+            if key == "push":
+                want = [(p, list(h)) for p, h in want]
+            if have != want:
+                sw = want if not isinstance(want, (bytes, bytearray)) else f"{len(want)} bytes {want[:8].hex()}…"
+                sh = have if not isinstance(have, (bytes, bytearray)) else f"{len(have)} bytes {have[:8].hex()}…"
+                return f"stream {sid}: {key} submitted {sw!r:.200} but received {sh!r:.200}"
+    return None
+
+
 def g_deliveries(sid, parts, fin, lone):
     d = [(sid, c, fin and (i == len(parts) - 1) and not lone) for i, c in enumerate(parts)]
     if fin and lone:
@@ -453,8 +652,7 @@ def main(tier):
             defect = "roundtrip"
             if oc == ("exception", "UnicodeDecodeError") and new_line.split()[2] == "1":
                 defect = "qlog-header-decode"
-            exp_ser = {str(sid): {"headers": [[[a.hex(), b.hex()] for a, b in h] for h in e["headers"]],
-                                  "body": e["body"].hex(), "ended": e["ended"]} for sid, e in expected.items()}
+            exp_ser = ser_expected(expected)
             ctx.witness("round trip: " + problem,
                         {"ops": ops, "impl_output": outs, "late_encoder_stream": late, "expected": exp_ser},
                         {"defect": defect})
@@ -462,6 +660,41 @@ def main(tier):
     ctx.notes["roundtrip_cases_with_blocked_stream"] = blocked_seen
     ctx.notes["roundtrip_cases_blocked_after_local_send_ended"] = sent_end_blocked
     ctx.notes["streams_enumerated"] = n_streams
+
+    # 3b. every identifier / length the sending API writes as a varint, at its size boundaries
+    batch = g.Batch(ctx, "roundtrip-boundaries")
+    nb = 0
+    for name, recv_role, sent, expected in boundary_cases(r):
+        for mode in (("whole", "bytes", "random") if not thorough else ("whole", "bytes", "random", "random", "random")):
+            dl = boundary_deliveries(r, sent, mode)
+            impl = H3Impl()
+            ops = [f"h3.new {recv_role} 0 1 {quirks}"]
+            ops += [f"h3.datagram {g.hx(d)}" if sid == "dgram" else f"h3.data {sid} {g.hx(d)} {1 if fin else 0}"
+                    for sid, d, fin in dl]
+            outs, mlines, evs, exc = [], [], [], None
+            for line in ops:
+                o, m = impl.step(line)
+                outs.append(o)
+                mlines.append(m)
+                if o.startswith("err "):
+                    exc = o
+                    break
+                if not line.startswith("h3.new"):
+                    evs += impl.last_events
+            batch.add(ops[: len(outs)], outs, mlines)
+            ctx.count((name, mode, tuple(ops)), True)
+            nb += 1
+            problem = exc or (f"receiver closed the connection: {impl.q.closed}" if impl.h._is_done else None)
+            if problem is None:
+                problem = check_expected(g.norm_events(evs), expected)
+            if problem:
+                exp_ser = ser_expected(expected)
+                ctx.witness(f"round trip at a varint boundary ({name}, {mode}): {problem}",
+                            {"ops": ops, "impl_output": outs, "boundary_case": name, "expected": exp_ser},
+                            {"defect": "roundtrip-boundary", "api": name.rsplit("-", 1)[0]})
+                break
+    batch.finish()
+    ctx.notes["boundary_roundtrips"] = nb
 
     # 4. frame codec
     batch = g.Batch(ctx, "frame-codec")
@@ -510,6 +743,30 @@ def replay(path):
 
     def dl(lst):
         return [(s, bytes.fromhex(h), bool(f)) for s, h, f in lst]
+    if "boundary_case" in rp:   # sender AND receiver are re-executed: the defect may be on either side
+        rr = rng.make("c14-replay")
+        problem = None
+        for name, recv_role, sent, expected in boundary_cases(rr):
+            if name != rp["boundary_case"]:
+                continue
+            for mode in ("whole", "bytes", "random"):
+                impl = H3Impl()
+                impl.step(f"h3.new {recv_role} 0 1 00000000")
+                evs = []
+                for sid, d, fin in boundary_deliveries(rr, sent, mode):
+                    o, _ = impl.step(f"h3.datagram {g.hx(d)}" if sid == "dgram" else
+                                     f"h3.data {sid} {g.hx(d)} {1 if fin else 0}")
+                    if o.startswith("err "):
+                        problem = problem or o
+                        break
+                    evs += impl.last_events
+                if problem is None and impl.h._is_done:
+                    problem = f"receiver closed the connection: {impl.q.closed}"
+                problem = problem or check_expected(g.norm_events(evs), expected)
+        if problem:
+            print(f"VIOLATION-DETAIL round trip at a varint boundary ({rp['boundary_case']}):", problem)
+        print("still failing" if problem else "no longer failing")
+        return 1 if problem else 0
     if "ops" in rp:   # round trip
         impl = H3Impl()
         evs, exc = [], None
@@ -522,12 +779,8 @@ def replay(path):
                 evs += impl.last_events
         got = g.norm_events(evs)
         problem = exc or (f"closed {impl.q.closed}" if impl.h._is_done else None)
-        for sid, e in (rp.get("expected") or {}).items():
-            n = got.get(int(sid))
-            want_h = [[(bytes.fromhex(a), bytes.fromhex(b)) for a, b in h] for h in e["headers"]]
-            if problem is None and (n is None or n["headers"] != want_h or n["body"] != bytes.fromhex(e["body"])
-                                    or n["ended"] != e["ended"]):
-                problem = f"stream {sid}: received {g.show_norm({int(sid): n}) if n else 'nothing'}"
+        if problem is None and rp.get("expected"):
+            problem = check_expected(got, deser_expected(rp["expected"]))
         if problem:
             print("VIOLATION-DETAIL round trip:", problem)
         print("still failing" if problem else "no longer failing")
